@@ -59,15 +59,14 @@ func (c *Ctx) NaturalTypes() []core.Ob {
 				return true
 			}
 			found = true
-			if len(inner.List) != 1 {
-				o.Status, o.Got = core.Violated, "the Interface target shares its clause with other kinds: it no longer receives the tag's own type"
-			}
+			stores := 0
 			ast.Inspect(inner, func(m ast.Node) bool {
 				call, ok := m.(*ast.CallExpr)
 				if !ok {
 					return true
 				}
 				if fo := calleeObj(info, call); fo != nil && fo.Pkg() != nil && fo.Pkg().Path() == "reflect" && fo.Name() == "ValueOf" && len(call.Args) == 1 {
+					stores++
 					t := info.TypeOf(call.Args[0])
 					if t == nil || t.String() != nat {
 						o.Status, o.Got = core.Violated, fmt.Sprintf("stores a %v, the natural type of %s is %s", t, name, nat)
@@ -75,6 +74,10 @@ func (c *Ctx) NaturalTypes() []core.Ob {
 				}
 				return true
 			})
+			if stores == 0 {
+				// a clause shared with concrete kinds that sets through SetInt/SetFloat/... cannot serve an interface target
+				o.Status, o.Got = core.Violated, "the clause taking reflect.Interface targets stores no reflect.ValueOf(<"+nat+">)"
+			}
 			return false
 		})
 		if !found {
@@ -334,7 +337,9 @@ func (c *Ctx) JSONCustomCodec() []core.Ob {
 		if !inPkgs(fn, "chat") {
 			continue
 		}
-		for _, ci := range callsIn(fn, func(nm string, _ *ssa.CallCommon) bool { return nm == "encoding/json.Marshal" || nm == "encoding/json.Unmarshal" }) {
+		for _, ci := range callsIn(fn, func(nm string, _ *ssa.CallCommon) bool {
+			return nm == "encoding/json.Marshal" || nm == "encoding/json.Unmarshal"
+		}) {
 			name := calleeName(ci.Common())
 			method := "MarshalJSON"
 			arg := ci.Common().Args[0]
@@ -695,7 +700,6 @@ func (c *Ctx) OmitEmptyTestsField() []core.Ob {
 	}
 	return []core.Ob{o}
 }
-
 
 // ------------------------------------------------------------ C10 constructor
 
